@@ -118,7 +118,8 @@ def generate(ctx):
         # the foreign character: a plain letter, a letter that is "digit + 32" in ASCII ('Q' = '1' + 32), or for a
         # decimal number a second decimal point
         kind = dict(fmt.fields)[fname]
-        chars = ["x", "Q", "P"] + (["."] if (kind == "float" and b"." in data[fs_:fs_ + fl] and b"e" not in data[fs_:fs_ + fl]) else [])
+        # ... or punctuation that sorts below '0' in ASCII like the signs do (space, '*', '#', ',')
+        chars = ["x", "Q", "P", " ", "*", "#", ","] + (["."] if (kind == "float" and b"." in data[fs_:fs_ + fl] and b"e" not in data[fs_:fs_ + fl]) else [])
         ch = chars[tape.draw(len(chars), "badchar")]
         if ch == "." and data[off:off + 1] == b".":
             ch = "x"
